@@ -1561,6 +1561,11 @@ def assemble(repo, unit, cfg, opts=None):
         wanted[path] = None
     for path, fc in ov.fns.items():
         wanted[path] = fc
+    # constants / type aliases that the current source uses but the overlay did not list (auto-included by the
+    # back end after a first "cannot find value" rejection; code the contracts were not written for may use them)
+    for path in opts.get("extra_items", []):
+        if path in table and table[path].kind in ("const", "static", "type") and path not in wanted:
+            wanted[path] = None
     missing = [p for p in wanted if p not in table]
     if missing:
         raise ExtractError("lost anchor: item(s) not found in source under config %s: %s"
